@@ -36,7 +36,10 @@ m = {
     "engines": [
         {"name": "verif", "path": "/verif/engine/verif", "serves_properties": [c["property_id"] for c in checks if c["engine"] == "verif"],
          "kind_free_text": "Rust coordinator + 12 worker subprocesses; proptest TestRunner (fixed ChaCha seed from VERIF_SEED) generating programs / inputs / histories / schedules, explicit oracles, shrinking, replay files"},
-    ],
+    ] + ([
+        {"name": "utilsan", "path": "/verif/engine/utilsan", "serves_properties": [pid for pid, t in table.items() if t.get("aux_engine") == "utilsan" and t.get("status") == "claimed"],
+         "kind_free_text": "auxiliary worker binary driven by the verif coordinator: executes IdSet / Arena operation sequences against /repo/utils and an in-process model; built by ./check (tools/build_utilsan.sh) with nightly -Zsanitizer=address, stable build without ASan as recorded fallback"},
+    ] if any(t.get("aux_engine") == "utilsan" for t in table.values()) else []),
     "checks": checks,
     "not_applicable": na,
     "notes": "All checks: exit 0 = held on everything explored (KNOWN-FINDING lines allowed), 1 = VIOLATION line(s), 2 = harness/build problem. known_findings.json lists open findings and fixed: entries. See DESIGN.md.",
